@@ -5,8 +5,14 @@
 //!        `P<k>:<ts>:<name>:<val>` publish a packet for key k, timestamp ts, one TXT `<name>` = "v<val>"
 //!        `G<k>`                   get_signed_packet of key k
 //!   the schedule lists task indices; each entry runs the next atomic step of that
-//!   task (up to its next pause point or its return); afterwards all tasks are run
-//!   to completion in index order (3 entries each), exactly as `C38.full_sched`.
+//!   task (up to its next pause point or its return); an entry `<i>*` additionally parks
+//!   the task INSIDE the cache lock scope its step enters (pause points in_cache_check /
+//!   in_cache_fill, right after `cache.lock().await`), its next entry runs the body of the
+//!   scope.  While a task is parked inside a scope, a step of another task that needs the
+//!   cache lock must block: "not parked or returned within BLOCK_MS" is observed as
+//!   `OBlocked`, and the step must complete (in mutex-queue order) once the holder leaves
+//!   its scope.  Afterwards all tasks are run to completion in index order (3 entries each,
+//!   two passes), exactly as `C38.full_sched`.  Output = list of (task, observation) events.
 use std::time::{Duration, Instant};
 
 use hcommon::*;
@@ -14,11 +20,20 @@ use iroh_base::SecretKey;
 use iroh_dns::pkarr::{SignedPacket, Timestamp};
 use iroh_dns_server::verif_hooks::{c38::Zones, sched};
 
-const POINTS: [&str; 3] = [
+const POINTS: [&str; 5] = [
     "zonestore.resolve.after_check",
     "zonestore.resolve.after_get",
     "zonestore.insert.after_upsert",
+    // inside the two cache lock scopes of resolve (the cache mutex is held while parked there)
+    "zonestore.resolve.in_cache_check",
+    "zonestore.resolve.in_cache_fill",
 ];
+
+/// How long a step may take before it counts as blocked on the cache mutex (only applied while
+/// another task is parked inside a lock scope; otherwise a step has 10 s and then is an error).
+fn block_ms() -> u64 {
+    std::env::var("C38_BLOCK_MS").ok().and_then(|v| v.parse().ok()).unwrap_or(200)
+}
 const NAMES: [&str; 2] = ["_a", "_b"];
 
 #[derive(Clone, Debug)]
@@ -77,10 +92,14 @@ fn val_of(s: &str) -> u64 {
 }
 
 fn raw_case(tasks: &[Task], sched: &[usize]) -> String {
+    raw_case_h(tasks, &sched.iter().map(|i| (*i, false)).collect::<Vec<_>>())
+}
+
+fn raw_case_h(tasks: &[Task], sched: &[(usize, bool)]) -> String {
     format!(
         "{} ; {}",
         tasks.iter().map(|t| t.raw()).collect::<Vec<_>>().join(","),
-        sched.iter().map(|i| i.to_string()).collect::<Vec<_>>().join(" ")
+        sched.iter().map(|(i, h)| format!("{i}{}", if *h { "*" } else { "" })).collect::<Vec<_>>().join(" ")
     )
 }
 
@@ -101,11 +120,39 @@ fn merges(ids: &[usize], counts: &mut Vec<usize>, cur: &mut Vec<usize>, out: &mu
     }
 }
 
+/// all order-preserving merges of two entry sequences
+fn merges2(a: &[(usize, bool)], b: &[(usize, bool)], cur: &mut Vec<(usize, bool)>, out: &mut Vec<Vec<(usize, bool)>>) {
+    if a.is_empty() && b.is_empty() {
+        out.push(cur.clone());
+        return;
+    }
+    if let Some((x, r)) = a.split_first() {
+        cur.push(*x);
+        merges2(r, b, cur, out);
+        cur.pop();
+    }
+    if let Some((x, r)) = b.split_first() {
+        cur.push(*x);
+        merges2(a, r, cur, out);
+        cur.pop();
+    }
+}
+
+struct Enumerated {
+    /// 1 resolve x 1 publish templates, all interleavings (70)
+    small: Vec<String>,
+    /// 1 resolve x 1 publish with the resolve parked inside both of its lock scopes, all interleavings
+    held: Vec<String>,
+    /// 2 resolves x 1 publish, 1 resolve x 2 publishes
+    large: Vec<String>,
+}
+
 /// Exhaustive part: sequential prefix, all interleavings of the concurrent tasks, sequential suffix.
-fn enumerated() -> &'static Vec<String> {
-    static E: std::sync::OnceLock<Vec<String>> = std::sync::OnceLock::new();
+fn enumerated() -> &'static Enumerated {
+    static E: std::sync::OnceLock<Enumerated> = std::sync::OnceLock::new();
     E.get_or_init(|| {
-        let mut out = Vec::new();
+        let mut small = Vec::new();
+        let mut large = Vec::new();
         // (tasks, number of leading sequential tasks, concurrent tasks, trailing sequential tasks)
         let templates: Vec<(Vec<Task>, usize, usize)> = vec![
             // one resolve x one publish (newer), then a later resolve
@@ -125,32 +172,70 @@ fn enumerated() -> &'static Vec<String> {
             // one resolve x two publishes
             (vec![Task::P(0, 1, 0, 1), Task::R(0, 0), Task::P(0, 2, 0, 2), Task::P(0, 3, 0, 3), Task::R(0, 0), Task::G(0)], 1, 3),
         ];
-        for (tasks, lead, conc) in templates {
+        let lead_steps = |tasks: &[Task], lead: usize| {
             let mut pre = Vec::new();
             for i in 0..lead {
                 for _ in 0..tasks[i].steps() {
                     pre.push(i);
                 }
             }
-            let ids: Vec<usize> = (lead..lead + conc).collect();
+            pre
+        };
+        for (tasks, lead, conc) in &templates {
+            let pre = lead_steps(tasks, *lead);
+            let ids: Vec<usize> = (*lead..lead + conc).collect();
             let mut counts: Vec<usize> = ids.iter().map(|i| tasks[*i].steps()).collect();
             let mut ms = Vec::new();
             merges(&ids, &mut counts, &mut Vec::new(), &mut ms);
             for m in ms {
                 let mut s = pre.clone();
                 s.extend(m);
-                out.push(raw_case(&tasks, &s));
+                if *conc == 2 {
+                    small.push(raw_case(tasks, &s));
+                } else {
+                    large.push(raw_case(tasks, &s));
+                }
             }
         }
-        out
+        // the 1 x 1 templates again, the resolve entering both of its lock scopes in two entries
+        // (take the lock and park inside / body and unlock), plus two templates in which the zone of the
+        // published key is already cached while a lookup (same key / another key) sits in its scope
+        let mut held = Vec::new();
+        let mut hts: Vec<(Vec<Task>, usize)> =
+            templates.iter().filter(|t| t.2 == 2).map(|t| (t.0.clone(), t.1)).collect();
+        hts.push((vec![Task::P(0, 1, 0, 1), Task::R(0, 0), Task::R(0, 0), Task::P(0, 2, 0, 2), Task::R(0, 0)], 2));
+        hts.push((vec![Task::P(0, 1, 0, 1), Task::R(0, 0), Task::R(1, 0), Task::P(0, 2, 0, 2), Task::R(0, 0), Task::R(1, 0)], 2));
+        for (tasks, lead) in hts {
+            let pre: Vec<(usize, bool)> = lead_steps(&tasks, lead).into_iter().map(|i| (i, false)).collect();
+            let (r, p) = if matches!(tasks[lead], Task::R(..)) { (lead, lead + 1) } else { (lead + 1, lead) };
+            let rs = [(r, true), (r, false), (r, false), (r, true), (r, false)];
+            let ps = [(p, false), (p, false)];
+            let mut ms = Vec::new();
+            merges2(&rs, &ps, &mut Vec::new(), &mut ms);
+            for m in ms {
+                let mut s = pre.clone();
+                s.extend(m);
+                held.push(raw_case_h(&tasks, &s));
+            }
+        }
+        Enumerated { small, held, large }
     })
 }
 
 fn generate(rng: &mut Rng, i: u64, n: u64) -> String {
     let e = enumerated();
-    // the small templates (first 70 cases) always; the large ones only when the budget allows
-    if (i as usize) < e.len() && (i < 70 || n >= 1500) {
-        return e[i as usize].clone();
+    // the small templates and their held variants always; the large ones only when the budget allows
+    let i = i as usize;
+    if i < e.small.len() {
+        return e.small[i].clone();
+    }
+    let i = i - e.small.len();
+    if i < e.held.len() {
+        return e.held[i].clone();
+    }
+    let i = i - e.held.len();
+    if n >= 1500 && i < e.large.len() {
+        return e.large[i].clone();
     }
     let nt = rng.range(2, 6) as usize;
     let nkeys = if rng.chance(2, 3) { 1 } else { 2 };
@@ -185,7 +270,26 @@ fn generate(rng: &mut Rng, i: u64, n: u64) -> String {
     if rng.chance(1, 10) {
         sched.push(nt + 1); // out-of-range entry
     }
-    raw_case(&tasks, &sched)
+    let mut sched: Vec<(usize, bool)> = sched.into_iter().map(|i| (i, false)).collect();
+    // 2 of 5: lookups are parked inside their lock scopes; each hold needs one more entry of that
+    // task for the body of the scope, placed anywhere later (or left to the final drain)
+    if rng.chance(2, 5) {
+        let mut k = 0;
+        while k < sched.len() {
+            let (t, _) = sched[k];
+            if t < nt && matches!(tasks[t], Task::R(..)) && rng.chance(1, 2) {
+                sched[k].1 = true;
+                if rng.chance(3, 4) {
+                    let at = rng.range(k as u64 + 1, sched.len() as u64) as usize;
+                    sched.insert(at, (t, rng.chance(1, 8)));
+                }
+            } else if rng.chance(1, 12) {
+                sched[k].1 = true; // hold flag on a step without a lock scope of its own: no effect
+            }
+            k += 1;
+        }
+    }
+    raw_case_h(&tasks, &sched)
 }
 
 #[derive(Debug)]
@@ -211,6 +315,7 @@ fn coq_obs(o: &Obs) -> String {
     match o {
         Obs::Skip => "C38.OSkip".into(),
         Obs::Park(p) => format!("C38.OPark {p}"),
+        Obs::Blocked => "C38.OBlocked".into(),
         Obs::Err => "C38.OErr".into(),
         Obs::Done(Out::R(a)) => format!(
             "C38.ODoneR {}",
@@ -235,6 +340,8 @@ fn coq_obs(o: &Obs) -> String {
 enum Obs {
     Skip,
     Park(usize),
+    /// not parked and not returned within the deadline while another task sits inside a lock scope
+    Blocked,
     Done(Out),
     Err,
 }
@@ -245,7 +352,70 @@ struct Live {
     done: bool,
 }
 
-fn run_case(rt: &tokio::runtime::Runtime, tasks: &[Task], sched: &[usize]) -> Vec<Obs> {
+struct Runner<'a> {
+    rt: &'a tokio::runtime::Runtime,
+    live: Vec<Live>,
+    /// tickets already attributed to a task
+    seen: std::collections::HashSet<u64>,
+    /// task parked inside a cache lock scope (it holds the cache mutex)
+    holder: Option<usize>,
+    /// tasks observed as blocked, oldest first (= the order of their `lock()` calls)
+    queue: Vec<usize>,
+}
+
+impl Runner<'_> {
+    fn new_ticket(&self, inside: bool) -> Option<(usize, u64)> {
+        let range = if inside { 3..5 } else { 0..3 };
+        for pi in range {
+            if let Some(t) = sched::parked_at(POINTS[pi]).into_iter().find(|t| !self.seen.contains(t)) {
+                return Some((pi + 1, t));
+            }
+        }
+        None
+    }
+
+    /// Waits until task `i` parks or returns.  A task that enters a lock scope parks at the pause point
+    /// inside it first: with `hold` it is left there (holding the cache mutex), otherwise it is released
+    /// at once.  `may_enter` = the step has not passed an inside point yet (at most one per step; a
+    /// later arrival at an inside point belongs to the next task in the mutex queue).
+    fn advance(&mut self, i: usize, hold: bool, mut may_enter: bool, deadline: Duration, blocked_ok: bool) -> Obs {
+        let end = Instant::now() + deadline;
+        loop {
+            if may_enter {
+                if let Some((pi, t)) = self.new_ticket(true) {
+                    self.seen.insert(t);
+                    may_enter = false;
+                    if hold {
+                        self.live[i].ticket = Some(t);
+                        self.holder = Some(i);
+                        return Obs::Park(pi);
+                    }
+                    sched::release(t);
+                    continue;
+                }
+            }
+            if let Some((pi, t)) = self.new_ticket(false) {
+                self.seen.insert(t);
+                self.live[i].ticket = Some(t);
+                return Obs::Park(pi);
+            }
+            if self.live[i].handle.as_ref().map(|h| h.is_finished()).unwrap_or(false) {
+                self.live[i].done = true;
+                let h = self.live[i].handle.take().unwrap();
+                return match self.rt.block_on(h) {
+                    Ok(out) => Obs::Done(out),
+                    Err(_) => Obs::Err,
+                };
+            }
+            if Instant::now() > end {
+                return if blocked_ok { Obs::Blocked } else { Obs::Err };
+            }
+            std::thread::sleep(Duration::from_micros(100));
+        }
+    }
+}
+
+fn run_case(rt: &tokio::runtime::Runtime, tasks: &[Task], sched: &[(usize, bool)]) -> Vec<(usize, Obs)> {
     sched::reset();
     for p in POINTS {
         sched::arm(p);
@@ -254,35 +424,61 @@ fn run_case(rt: &tokio::runtime::Runtime, tasks: &[Task], sched: &[usize]) -> Ve
         let _g = rt.enter();
         Zones::in_memory().expect("store")
     };
-    let mut live: Vec<Live> = tasks.iter().map(|_| Live { handle: None, ticket: None, done: false }).collect();
-    let mut max_ticket = sched::parked_at(POINTS[0])
-        .into_iter()
-        .chain(sched::parked_at(POINTS[1]))
-        .chain(sched::parked_at(POINTS[2]))
-        .max()
-        .unwrap_or(0);
-    let mut full: Vec<usize> = sched.to_vec();
-    for i in 0..tasks.len() {
-        full.extend([i, i, i]);
+    let mut r = Runner {
+        rt,
+        live: tasks.iter().map(|_| Live { handle: None, ticket: None, done: false }).collect(),
+        seen: POINTS.iter().flat_map(|p| sched::parked_at(p)).collect(),
+        holder: None,
+        queue: Vec::new(),
+    };
+    let mut full: Vec<(usize, bool)> = sched.to_vec();
+    for _pass in 0..2 {
+        for i in 0..tasks.len() {
+            full.extend([(i, false); 3]);
+        }
     }
-    let mut obs = Vec::new();
+    let long = Duration::from_secs(10);
+    let mut evs: Vec<(usize, Obs)> = Vec::new();
     let mut broken = false;
-    for &i in &full {
+    for &(i, hold) in &full {
         if broken {
-            obs.push(Obs::Err);
+            evs.push((i, Obs::Err));
             continue;
         }
-        if i >= tasks.len() || live[i].done {
-            obs.push(Obs::Skip);
+        if i >= tasks.len() || r.live[i].done {
+            evs.push((i, Obs::Skip));
             continue;
         }
-        let l = &mut live[i];
-        match l.ticket.take() {
+        if r.queue.contains(&i) {
+            // still waiting for the mutex (it cannot have moved on: the holder is still parked)
+            let o = r.advance(i, false, false, Duration::ZERO, true);
+            evs.push((i, o));
+            continue;
+        }
+        if r.holder == Some(i) {
+            // body of the lock scope, unlock; then the queued tasks get the lock in order
+            let t = r.live[i].ticket.take().expect("holder ticket");
+            sched::release(t);
+            r.holder = None;
+            let o = r.advance(i, false, false, long, false);
+            broken |= matches!(o, Obs::Err);
+            evs.push((i, o));
+            for w in std::mem::take(&mut r.queue) {
+                if broken {
+                    break;
+                }
+                let o = r.advance(w, false, true, long, false);
+                broken |= matches!(o, Obs::Err);
+                evs.push((w, o));
+            }
+            continue;
+        }
+        match r.live[i].ticket.take() {
             Some(t) => sched::release(t),
             None => {
                 let z = zones.clone();
                 let t = tasks[i].clone();
-                l.handle = Some(rt.spawn(async move {
+                r.live[i].handle = Some(rt.spawn(async move {
                     match t {
                         Task::R(k, n) => match z.resolve_txt(secret(k).public().as_bytes(), NAMES[n]).await {
                             Ok(a) => Out::R(a),
@@ -300,44 +496,28 @@ fn run_case(rt: &tokio::runtime::Runtime, tasks: &[Task], sched: &[usize]) -> Ve
                 }));
             }
         }
-        // wait until this task parks again or returns (nothing else is runnable)
-        let deadline = Instant::now() + Duration::from_secs(10);
-        let o = loop {
-            let mut found = None;
-            for (pi, p) in POINTS.iter().enumerate() {
-                if let Some(t) = sched::parked_at(p).into_iter().find(|t| *t > max_ticket) {
-                    found = Some((pi + 1, t));
-                }
-            }
-            if let Some((pi, t)) = found {
-                max_ticket = t;
-                l.ticket = Some(t);
-                break Obs::Park(pi);
-            }
-            if l.handle.as_ref().map(|h| h.is_finished()).unwrap_or(false) {
-                l.done = true;
-                let h = l.handle.take().unwrap();
-                break match rt.block_on(h) {
-                    Ok(out) => Obs::Done(out),
-                    Err(_) => Obs::Err,
-                };
-            }
-            if Instant::now() > deadline {
-                broken = true;
-                break Obs::Err;
-            }
-            std::thread::sleep(Duration::from_micros(100));
+        // wait until this task parks again or returns (nothing else is runnable); while another task
+        // sits inside a lock scope, "neither within the deadline" = blocked on the cache mutex
+        let o = if r.holder.is_some() {
+            r.advance(i, hold, true, Duration::from_millis(block_ms()), true)
+        } else {
+            r.advance(i, hold, true, long, false)
         };
-        obs.push(o);
+        match o {
+            Obs::Blocked => r.queue.push(i),
+            Obs::Err => broken = true,
+            _ => {}
+        }
+        evs.push((i, o));
     }
     sched::reset();
-    for l in live.iter_mut() {
+    for l in r.live.iter_mut() {
         if let Some(h) = l.handle.take() {
             h.abort();
         }
     }
     drop(zones);
-    obs
+    evs
 }
 
 fn run(raw: &str) -> (String, String) {
@@ -350,14 +530,20 @@ fn run(raw: &str) -> (String, String) {
     }
     let (ts, ss) = raw.split_once(';').expect("case");
     let tasks: Vec<Task> = ts.trim().split(',').filter(|s| !s.is_empty()).map(Task::parse).collect();
-    let sched: Vec<usize> = ss.split_whitespace().map(|x| x.parse().unwrap()).collect();
+    let sched: Vec<(usize, bool)> = ss
+        .split_whitespace()
+        .map(|x| match x.strip_suffix('*') {
+            Some(y) => (y.parse().unwrap(), true),
+            None => (x.parse().unwrap(), false),
+        })
+        .collect();
     let coq_in = format!(
         "({}, {})",
         coq_list(tasks.iter(), coq_task),
-        coq_list(sched.iter(), |i| format!("{i}%nat"))
+        coq_list(sched.iter(), |(i, h)| format!("({i}%nat, {})", coq_bool(*h)))
     );
-    let obs = RT.with(|rt| run_case(rt, &tasks, &sched));
-    (coq_in, coq_list(obs.iter(), coq_obs))
+    let evs = RT.with(|rt| run_case(rt, &tasks, &sched));
+    (coq_in, coq_list(evs.iter(), |(i, o)| format!("({i}%nat, {})", coq_obs(o))))
 }
 
 fn main() {
